@@ -29,7 +29,7 @@ NOT_APPLICABLE = [
     {"property_id": "C01", "reason": "process-level statement (exit status, stdout bytes, files) through globbing, Latin-1/gzip decoding, XML and env_logger: no symbolic input can be pushed through it; a Kani run on one concrete directory would be a concrete run, not a solver verdict"},
     {"property_id": "C02", "reason": "referential closure of converted models lives in string-keyed maps of parsed names and md5-of-Debug ids; format!+md5+string maps cannot be executed symbolically and modelling them away leaves none of the mechanism"},
     {"property_id": "C05", "reason": "byte-identical output across processes and 16 threads and md5-derived ids: Kani has no concurrency or processes, and the id function is md5 of Debug text"},
-    {"property_id": "C12", "reason": "the factor itself is trigonometry + irradiance weighting (not interpretable by CBMC); the one trig-free piece, Model::sunlit_fraction on a horizontal skylight, goes through BVH + Occluder + nalgebra isometries: the smallest scene (no obstacles, one ray) is proved but takes 30 min, a 2-obstacle scene had no verdict in 25 min at 40 GB - no check that can run on every change, and the decidable clause is marginal (harnesses kept unregistered in harness/src/c12.rs, runnable with VERIF_EXPERIMENTAL=1)"},
+    {"property_id": "C12", "reason": "the factor itself is trigonometry + irradiance weighting (not interpretable by CBMC); the one trig-free piece, Model::sunlit_fraction on a horizontal skylight, goes through BVH + Occluder + nalgebra isometries: the smallest scene (no obstacles, one ray) is proved but takes 30 min, a 2-obstacle scene had no verdict in 90 min at 40 GB - no check that can run on every change, and the decidable clause is marginal (harnesses kept unregistered in harness/src/c12.rs, runnable with VERIF_EXPERIMENTAL=1)"},
     {"property_id": "C16", "reason": "purge_unused: symbolic execution does not finish (monolithic harness 15 min, five per-collection-group harnesses 20 min each): ten sub-purges of flat_map/flatten/cloned/filter/collect chains over vectors whose lengths become symbolic, Uuid memcmp in every HashSet operation; a bound small enough to finish would drop the chain/ordering clauses the statement is about"},
     {"property_id": "C18", "reason": "line/quote slicing parsers over String (replace, lines, split, trim, parse::<f32>): measured, 5 symbolic bytes through extract_u32vec do not finish in 10 minutes; no reachable bound says anything about documents"},
 ]
